@@ -215,6 +215,33 @@ def waiter_scenario(sid, mn, mx, rng, release_index=-1):
     return sc
 
 
+def storm_scenario(sid, mn, mx, rng, n=600):
+    """many short requests from many clients at once (far more than max), none held: the bookkeeping of the free and
+    additional lists is exercised under contention; afterwards max simultaneous requests must still be served"""
+    rules = rules_v(1)
+    names = [r["name"] for r in rules]
+    sc = {"id": sid, "min": mn, "max": mx, "model": 1, "rules": rules, "steps": []}
+    rid = sid * 1000
+    ids = []
+    for _ in range(n):
+        rid += 1
+        ids.append(rid)
+        sc["steps"].append(req_step(rid, rng.choice(["Execute", "ExecuteConcurrent", "ExecuteRulesWithMultiInputWithSpecifiedEM", "ExecuteSelectedRules"]), names, hold_at="", wait_ms=-1))
+    for q in ids:
+        sc["steps"].append({"op": "wait", "id": q})
+    sc["steps"].append({"op": "snapshot", "probe": names, "_active": [], "_done": []})
+    held = []
+    for _ in range(mx):
+        rid += 1
+        held.append(rid)
+        sc["steps"].append(req_step(rid, "Execute", names, hold_at="*"))
+    sc["steps"].append({"op": "snapshot", "probe": names, "_active": list(held), "_done": []})
+    for q in held:
+        sc["steps"].append({"op": "release", "id": q})
+    sc["steps"].append({"op": "snapshot", "probe": names, "_active": [], "_done": list(held)})
+    return sc
+
+
 def cap_checks(tag, scenarios, obs):
     """Returns (mismatches [(scenario id, code)], counts). Codes: Pool/Check.v check_cap (1-6) and check_req (11-13);
     7 = a request never finished (waiter starved / instance lost); 8 = scenario crashed the process."""
